@@ -25,6 +25,19 @@ def main():
     out = {"seed_id": sid, "repo_head": sh("git -C /repo rev-parse --short HEAD").stdout.strip(), "tier": tier}
     try:
         env = dict(os.environ, PYTHONPATH=wt, PYTHONHASHSEED="0")
+
+        def build_ext():
+            if "--rust" not in opts:
+                return
+            for f in os.listdir(os.path.join(wt, "solvor")):
+                if f.startswith("_solvor_rust"):
+                    os.remove(os.path.join(wt, "solvor", f))
+            dest = os.path.join(wt, "solvor", "_solvor_rust.so")
+            r = sh(f"/venv/bin/python -c \"from vf import shadow; import shutil; shutil.copy(shadow.build_rust(), '{dest}')\"", cwd="/verif", env=dict(os.environ, VERIF_REPO=wt, PYTHONPATH="/verif/.deps:/verif"))
+            if r.returncode:
+                print("rust build failed", r.stderr[-300:])
+
+        build_ext()
         d0 = sh(f"/venv/bin/python {src}/demo.py", cwd=wt, env=env)
         out["demo_clean"] = {"exit": d0.returncode, "tail": d0.stdout.strip()[-200:]}
         a = sh(f"git -C {wt} apply {os.path.abspath(src)}/patch.diff")
@@ -32,6 +45,7 @@ def main():
         if a.returncode:
             print("PATCH DOES NOT APPLY", a.stderr[-500:]); out["error"] = a.stderr[-500:]
         else:
+            build_ext()
             d1 = sh(f"/venv/bin/python {src}/demo.py", cwd=wt, env=env)
             out["demo_patched"] = {"exit": d1.returncode, "tail": d1.stdout.strip()[-200:]}
             imp = sh("/venv/bin/python -c 'import solvor'", cwd=wt, env=env)
